@@ -914,6 +914,16 @@ func zzG09WaitRules(marker string, bound time.Duration) (ok bool) {
 
 var zzG09Marker int
 
+// zzG09Quiesce waits for a flush of the query log's memory buffer that the
+// last query may have started (systems booted with a small buffer).
+func zzG09Quiesce() {
+	if q, ok := globalContext.queryLog.(interface {
+		ZZVerifG09Quiesce(bound time.Duration) (ok bool)
+	}); ok {
+		q.ZZVerifG09Quiesce(3 * time.Second)
+	}
+}
+
 // zzG09Exec executes one abstract operation and observes.
 func (sys *zzG09Sys) exec(rng *rand.Rand, op zzG09M, dropWait, ruleWait time.Duration) (obs *zzG09Obs) {
 	obs = &zzG09Obs{Code: "ok"}
@@ -1012,6 +1022,7 @@ func (sys *zzG09Sys) exec(rng *rand.Rand, op zzG09M, dropWait, ruleWait time.Dur
 
 	var err error
 	obs.Asked = sys.takeAsked()
+	zzG09Quiesce()
 	if obs.log, err = zzG09ReadLog(); err != nil {
 		obs.Err += " " + err.Error()
 		obs.log = []zzG09LogItem{}
